@@ -151,7 +151,7 @@ def _mk(L, n, feats=None):
 # ---------------------------------------------------------------------------------------
 
 
-def replay_split(n):
+def replay_split(n, n_set=1):
     def run(cex):
         from acryo import SubtomogramLoader, Molecules
 
@@ -181,6 +181,22 @@ def replay_split(n):
                         ok = True
             if n >= 2 and not ok:
                 bad[f"seed{seed}-not-a-partition"] = True
+            # several sets: every set's two halves partition the molecules
+            for ns in sorted({2, n_set} - {1}):
+                hs = ld.average_split(n_set=ns, seed=seed)
+                if n < 2 or hs.shape[:2] != (ns, 2):
+                    if n >= 2:
+                        bad[f"seed{seed}-n_set{ns}-shape"] = list(hs.shape)
+                    continue
+                for si in range(ns):
+                    ok = False
+                    for k in range(1, n):
+                        for S in itertools.combinations(range(n), k):
+                            T = [i for i in range(n) if i not in S]
+                            if np.allclose(hs[si, 0], sub[list(S)].mean(axis=0), atol=1e-5) and np.allclose(hs[si, 1], sub[T].mean(axis=0), atol=1e-5):
+                                ok = True
+                    if not ok:
+                        bad[f"seed{seed}-n_set{ns}-set{si}-not-a-partition"] = True
         return len(bad) > 0, {"n": n, "problems": bad}
 
     return run
@@ -214,7 +230,7 @@ def sec_split(rec, n=4, n_set=1, patches=None):
     API = L["acryo.backend._api"]
     xp = stubs.make_backend(API, API.np, None)
     L["acryo.loader._base"].Backend = lambda *a, **k: xp
-    rp = replay_split(n)
+    rp = replay_split(n, n_set)
     tag = f"split[n={n},n_set={n_set}]"
     with L.installed():
         def run():
